@@ -26,7 +26,14 @@ flat element position), so a received block identifies the slice it came from.
   align_arrays with differently chunked operands (expected chunks = common refinement).  "trace" mode: as above
   (with concatenate=True the function must receive the concatenation over the contracted axes, otherwise nested
   lists of blocks, nesting in the order of the array's own contracted axes); "value" mode: an einsum-like function
+  (with lists of blocks it combines the blocks POSITION BY POSITION, zip semantics along every contracted letter)
   and comparison of the final result with numpy.einsum on the whole arrays.
+  Contraction families (a fifth of the cases + a complete sub-space): a contracted letter shared by >= 2 operands ("pair"),
+  one operand holding it in ONE block while another has >= 2 ("bcast": a length-1 axis, or with align_arrays=False one
+  block of any length: block-position broadcasting), two contracted letters in one operand ("nested": lists of lists).
+  list-structure facet (every call, both modes): a bare block with concatenate=True, otherwise nested lists with one level
+  per contracted letter of that operand whose length is the number of blocks along the letter - a broadcast operand's one
+  block is repeated at every position, so that all operands line up position by position.
 * apply_gufunc (kind "gufunc"): signatures "(i)->()", "(i),(i)->()", "(i,j),(j)->(i)", "()->(k)", "(i)->(i)",
   "(i),(j)->(i,j)", "(i)->(),()", "(),()->()" with loop dimensions that broadcast, core dimensions in one chunk or
   chunked with allow_rechunk=True, axes=/axis=/keepdims, output_sizes, vectorize=True; reference
@@ -58,21 +65,28 @@ RULE = ("cases = one call of da.map_blocks / da.blockwise / da.apply_gufunc desc
         "non-trivial = some array axis split into >=2 chunks; distinct = distinct case description.")
 ASSUMPTIONS = ["NumPy (slicing, einsum, vectorize) is the reference", "the recording functions are thread safe; sync scheduler, threads for a tenth"]
 BUDGET = {"quick": 60, "thorough": 600}
-# measured on the unchanged tree (quick, 5 seeds): 2444 evaluations, ~1850 distinct non-trivial, map_blocks 1212, blockwise 752,
-# gufunc 480, user function calls ~6500, received blocks ~10500-11600, block_id ~2100, block_info ~1970-2200, einsum ~240-270
-FLOORS = {"quick": {"evaluations": 1150, "distinct_nontrivial": 850,
-                    "counters": {"map_blocks_calls": 550, "blockwise_calls": 340, "gufunc_calls": 220, "user_function_calls": 2900,
-                                 "blocks_matched_to_calls": 2400, "received_blocks_checked": 4700, "block_id_checked": 950,
-                                 "block_info_checked": 900, "einsum_compared": 110, "gufunc_outputs_compared": 240,
-                                 "blocks_mismatch_checked": 1000},
+# measured on the repaired tree (quick, 5 seeds): 2540 evaluations, ~2000 distinct non-trivial, map_blocks 972, blockwise 1088,
+# gufunc 480, user function calls ~6300-6700, received blocks ~10400-10900, list structures ~7500-8300, lists-of-blocks cases ~600,
+# broadcast along a contracted letter: ~275 list cases / ~100 concatenated, nested lists ~250
+FLOORS = {"quick": {"evaluations": 1200, "distinct_nontrivial": 900,
+                    "counters": {"map_blocks_calls": 440, "blockwise_calls": 490, "gufunc_calls": 220, "user_function_calls": 2900,
+                                 "blocks_matched_to_calls": 2300, "received_blocks_checked": 4700, "block_id_checked": 700,
+                                 "block_info_checked": 740, "einsum_compared": 150, "gufunc_outputs_compared": 240,
+                                 "blocks_mismatch_checked": 1000, "list_structures_checked": 3400, "cases_lists_of_blocks": 260,
+                                 "cases_broadcast_along_contracted_lists": 115, "cases_broadcast_along_contracted_concatenated": 40,
+                                 "cases_nested_lists": 110, "received_broadcast_along_contracted": 280},
                     "max_skipped_fraction": 0.2},
           "thorough": {"evaluations": 21000, "distinct_nontrivial": 15000,
-                       "counters": {"map_blocks_calls": 10000, "blockwise_calls": 6000, "gufunc_calls": 4000, "user_function_calls": 55000,
-                                    "received_blocks_checked": 90000, "block_id_checked": 18000, "block_info_checked": 17000,
-                                    "einsum_compared": 2000, "gufunc_outputs_compared": 4500, "blocks_mismatch_checked": 19000},
+                       "counters": {"map_blocks_calls": 8000, "blockwise_calls": 8000, "gufunc_calls": 4000, "user_function_calls": 50000,
+                                    "received_blocks_checked": 80000, "block_id_checked": 13000, "block_info_checked": 13000,
+                                    "einsum_compared": 2500, "gufunc_outputs_compared": 4500, "blocks_mismatch_checked": 17000,
+                                    "list_structures_checked": 60000, "cases_lists_of_blocks": 4500,
+                                    "cases_broadcast_along_contracted_lists": 2000, "cases_nested_lists": 1900},
                        "max_skipped_fraction": 0.2}}
 EXHAUSTIVE_SPACE = ("map_blocks(block_info, block_id) over all 4x2 chunkings of a (3,2) array x all 2 chunkings of a broadcast (1,2) row; "
-                    "blockwise 'ij,jk->ik' with concatenate True/False over all chunkings of two (2,2) arrays with a shared j chunking")
+                    "blockwise 'ij,jk->ik' with concatenate True/False over all chunkings of two (2,2) arrays with a shared j chunking; "
+                    "blockwise 'ij,ij->i' (j contracted, second operand one block along j) with concatenate None/False/True, trace and "
+                    "value mode, over all 8 chunkings of a (2,3) array x both chunkings of i of the (2,1) operand")
 CLAIM = ("Every call of the recording user functions made by the real map_blocks/blockwise during compute was matched to its output "
          "block and compared with the harness' own block geometry (slices, block_id, block_info); gufunc results were compared with "
          "numpy.vectorize; declared chunks were compared with the computed blocks. Held = no mismatch on the executions observed.")
@@ -88,12 +102,15 @@ LETTERS = "ijkl"
 # influence a facet are left out of its label)
 RELEVANT = {
     "received": ("drop_axis", "multi-array", "empty-chunk", "concatenate", "two-contracted-in-one-array", "contracted", "broadcast-axis",
+                 "broadcast-along-contracted",
                  "operands-chunked-differently", "align_arrays=False"),
+    "structure": ("concatenate", "broadcast-along-contracted", "two-contracted-in-one-array"),
     "block_id": ("drop_axis", "new_axis"),
     "block_info": ("drop_axis", "new_axis", "chunks", "scalar-arg"),
     "geometry": ("drop_axis", "new_axis", "chunks", "new_axes", "adjust_chunks", "operands-chunked-differently", "align_arrays=False"),
     "calls": ("drop_axis", "new_axis", "new_axes", "contracted", "concatenate"),
-    "value": ("concatenate", "contracted", "two-contracted-in-one-array", "new_axes", "broadcast-axis", "operands-chunked-differently"),
+    "value": ("concatenate", "contracted", "two-contracted-in-one-array", "new_axes", "broadcast-axis", "broadcast-along-contracted",
+              "operands-chunked-differently"),
     "exception": ("drop_axis", "new_axis", "chunks", "new_axes", "adjust_chunks", "concatenate", "contracted", "empty-chunk", "align_arrays=False"),
 }
 
@@ -156,11 +173,50 @@ def _gen_map_blocks(rng):
     return case
 
 
-def _gen_blockwise(rng):
-    nl = rng.choice((1, 2, 2, 3, 3, 4))
+def _force_contraction(rng, arrays, used, lchunks, out, force, align):
+    """Make the case one of the contraction families: a contracted letter held by >= 2 arrays ("pair"), one of them with a
+    single block along it ("bcast": length-1 axis, or with align_arrays=False one block of any length against >= 2 blocks),
+    or an array with two contracted letters ("nested": lists of lists)."""
+    multi = [l for l in used if len(lchunks[l]) >= 2] or list(used)
+    l1 = rng.choice(multi)
+    holders = [a for a in arrays if l1 in a["ind"]]
+    if len(holders) < 2:
+        others = [a for a in arrays if l1 not in a["ind"]]
+        if not others:
+            others = [{"ind": rng.choice(holders)["ind"]}]
+            arrays.append(others[0])
+        o = others[0]
+        o["ind"] = o["ind"] + l1 if rng.random() < 0.5 else l1 + o["ind"]
+        holders.append(o)
+    out = [l for l in out if l != l1]
+    for a in holders:
+        a.get("alt", {}).pop(l1, None)
+    if force == "bcast" and (align or len(lchunks[l1]) >= 2):
+        b = rng.choice(holders[1:] if rng.random() < 0.7 else holders)
+        if align:
+            b.setdefault("alt", {})[l1] = [1]
+        else:
+            b.setdefault("alt", {})[l1] = [rng.choice((1, 1, 2, 3))]
+    if force == "nested":
+        cand = [a for a in holders if len(a["ind"]) >= 2] or holders
+        a = rng.choice(cand)
+        if len(a["ind"]) < 2:
+            l2 = rng.choice([l for l in "ijkl" if l != l1])
+            lchunks.setdefault(l2, _sizes(rng, rng.choice((2, 3))))
+            a["ind"] = a["ind"] + l2 if rng.random() < 0.5 else l2 + a["ind"]
+            if l2 not in used:
+                used.append(l2)
+        l2 = rng.choice([l for l in a["ind"] if l != l1])
+        out = [l for l in out if l != l2]
+    return out
+
+
+def _gen_blockwise(rng, force=None):
+    nl = rng.choice((1, 2, 2, 3, 3, 4)) if force is None else rng.choice((2, 2, 3, 3, 4))
     letters = LETTERS[:nl]
-    lchunks = {l: _sizes(rng, rng.choice((1, 2, 2, 3))) for l in letters}
-    narr = rng.choice((1, 2, 2, 3))
+    # (contraction families want several blocks along most letters)
+    lchunks = {l: _sizes(rng, rng.choice((1, 2, 2, 3) if force is None else (1, 2, 2, 3, 3))) for l in letters}
+    narr = rng.choice((1, 2, 2, 3)) if force is None else rng.choice((2, 2, 3))
     align = rng.random() < 0.7
     arrays = []
     for i in range(narr):
@@ -186,17 +242,20 @@ def _gen_blockwise(rng):
                     break
     out = [l for l in used if rng.random() < 0.65]
     rng.shuffle(out)
-    for a in arrays:   # a broadcast (length-1) axis only for letters that stay in the output
-        for l in list(a.get("alt", {})):
-            if a["alt"][l] == [1] and l not in out and sum(lchunks[l]) != 1:
-                a["alt"].pop(l)
+    if force is not None:
+        out = _force_contraction(rng, arrays, used, lchunks, out, force, align)
+    used = sorted(set("".join(a["ind"] for a in arrays)))
+    single_any_length = any(v != [1] and len(v) == 1 and len(lchunks[l]) > 1 for a in arrays for l, v in a.get("alt", {}).items())
     case = {"kind": "blockwise", "letters": {l: lchunks[l] for l in used}, "arrays": arrays, "align": align,
-            "concatenate": rng.choice((True, True, False, None)), "mode": rng.choice(("trace", "trace", "value")),
+            "concatenate": rng.choice((True, True, False, None)) if force is None else rng.choice((None, False, None, False, True)),
+            "mode": "trace" if single_any_length else rng.choice(("trace", "trace", "value")),
             "threads": rng.random() < 0.1, "seed": rng.randrange(2 ** 31), "meta": rng.choice(("meta", "dtype"))}
     if rng.random() < 0.25:
         z = "z"
         case["new_axes"] = {z: rng.choice((1, 2, 3, [2, 2], [1, 1, 1]))}
         out.insert(rng.randint(0, len(out)), z)
+    if force is not None:
+        case["family"] = force
     if case["mode"] == "trace" and out and rng.random() < 0.3:
         l = rng.choice(out)
         nblocks = len(lchunks[l]) if l in lchunks else None
@@ -284,13 +343,23 @@ def cases(tier, seed):
                     yield {"space": "exhaustive", "kind": "blockwise", "letters": {"i": list(ci), "j": list(cj), "k": list(ck)},
                            "arrays": [{"ind": "ij"}, {"ind": "jk"}], "align": True, "concatenate": conc, "mode": "value", "out": "ik",
                            "threads": False, "seed": 1, "meta": "meta"}
+    # blockwise 'ij,ij->i': j contracted, y broadcast along j (one block), lists of blocks / concatenation
+    for c0 in A.all_chunkings((2, 3)):
+        for ci in ((2,), (1, 1)):
+            for conc in (None, False, True):
+                for mode in ("trace", "value"):
+                    yield {"space": "exhaustive", "kind": "blockwise", "letters": {"i": list(c0[0]), "j": list(c0[1])},
+                           "arrays": [{"ind": "ij"}, {"ind": "ij", "alt": {"i": list(ci), "j": [1]}}], "align": True, "concatenate": conc,
+                           "mode": mode, "out": "i", "threads": False, "seed": 2, "meta": "meta", "family": "bcast"}
     n = 2400 if tier == "quick" else 45000
     for i in range(n):
         r = i % 10
-        if r < 5:
+        if r < 4:
             yield _gen_map_blocks(rng)
-        elif r < 8:
+        elif r < 6:
             yield _gen_blockwise(rng)
+        elif r < 8:
+            yield _gen_blockwise(rng, force=("pair", "bcast", "bcast", "nested")[(i // 10) % 4])
         else:
             yield _gen_gufunc(rng)
 
@@ -682,11 +751,22 @@ def _run_blockwise(case, ctx):
         inds.append(ind)
     ctx.nontrivial = any(A.has_split(d.chunks) for d in das)
     contracted = sorted({l for ind in inds for l in ind} - set(out))
+    nblk = {l: max(len(d.chunks[ind.index(l)]) for d, ind in zip(das, inds) if l in ind) for l in letters}
+
+    def bcast(ai, a):
+        """argument ai is broadcast along its axis a: aligned operands broadcast a length-1 axis, un-aligned ones (block
+        positions only) any axis held in one block while another operand has several blocks"""
+        l = inds[ai][a]
+        if case["align"]:
+            return nps[ai].shape[a] == 1 and sum(letters[l]) != 1
+        return len(das[ai].chunks[a]) == 1 and nblk[l] > 1
+
     # ---- expected unified chunks per letter ------------------------------------------------------------------
     uni = {}
     differing = False
     for l in letters:
-        cands = [d.chunks[ind.index(l)] for d, ind in zip(das, inds) if l in ind and d.shape[ind.index(l)] > 1]
+        cands = [d.chunks[ind.index(l)] for ai, (d, ind) in enumerate(zip(das, inds)) if l in ind and not bcast(ai, ind.index(l))
+                 and (d.shape[ind.index(l)] > 1 or not case["align"])]
         if not cands:
             cands = [d.chunks[ind.index(l)] for d, ind in zip(das, inds) if l in ind]
         if len(set(cands)) > 1:
@@ -712,8 +792,15 @@ def _run_blockwise(case, ctx):
         feats.append("operands-chunked-differently")
     if not case["align"]:
         feats.append("align_arrays=False")
-    if any(a.get("alt", {}).get(l) == [1] and sum(letters[l]) != 1 for a in case["arrays"] for l in a["ind"]):
+    if any(bcast(ai, a) for ai, ind in enumerate(inds) for a in range(len(ind))):
         feats.append("broadcast-axis")
+        if any(bcast(ai, a) and l in contracted for ai, ind in enumerate(inds) for a, l in enumerate(ind)):
+            feats.append("broadcast-along-contracted")
+            ctx.count("cases_broadcast_along_contracted" + ("_lists" if conc is not True else "_concatenated"))
+    if conc is not True and any(sum(1 for l in ind if l in contracted) >= 2 for ind in inds):
+        ctx.count("cases_nested_lists")
+    if conc is not True and contracted:
+        ctx.count("cases_lists_of_blocks")
     for ft in feats:
         ctx.op("blockwise:" + ft)
     ctx.op("blockwise:mode=" + mode)
@@ -755,19 +842,36 @@ def _run_blockwise(case, ctx):
         if l in new_axes:
             continue
         for ai, (x, ind) in enumerate(zip(nps, inds)):
-            if l in ind and x.shape[ind.index(l)] == sum(uni[l]):
+            if l in ind and x.shape[ind.index(l)] == sum(uni[l]) and not bcast(ai, ind.index(l)):
                 definer[l] = (ai, ind.index(l))
                 break
 
     def f(*args):
         cid = rec.add(_copy(list(args)), {})
         if mode == "value":
-            ops = []
-            for arg, ind in zip(args, inds):
-                axes = [ind.index(l) for l in ind if l in contracted]
-                ops.append(_nest_concat(arg, axes) if isinstance(arg, (list, tuple)) else np.asarray(arg))
             spec = ",".join(inds) + "->" + "".join(l for l in out if l not in new_axes)
-            r = np.einsum(spec, *ops)
+            if conc is True or not contracted:
+                r = np.einsum(spec, *[np.asarray(a) for a in args])
+            else:
+                # lists of blocks: combine them POSITION BY POSITION (zip semantics along every contracted letter)
+                clets = [[l for l in ind if l in contracted] for ind in inds]
+                length = {}
+                for arg, cl in zip(args, clets):
+                    node = arg
+                    for l in cl:
+                        n = len(node) if isinstance(node, (list, tuple)) else 1
+                        length[l] = min(length.get(l, n), n)
+                        node = node[0] if isinstance(node, (list, tuple)) and len(node) else node
+                r = 0
+                for posn in itertools.product(*[range(length[l]) for l in contracted]):
+                    at = dict(zip(contracted, posn))
+                    ops = []
+                    for arg, cl in zip(args, clets):
+                        node = arg
+                        for l in cl:
+                            node = node[at[l]]
+                        ops.append(np.asarray(node))
+                    r = r + np.einsum(spec, *ops)
             for p, l in enumerate(out):
                 if l in new_axes:
                     v = new_axes[l]
@@ -820,6 +924,18 @@ def _run_blockwise(case, ctx):
     if len(calls) != len(idxs):
         ctx.violation(L("calls", "call-count"), "%d calls during compute for %d output blocks" % (len(calls), len(idxs)))
         return
+    # ---- structure every call received: a bare block, or (concatenate None/False) nested lists with one level per contracted
+    # letter of that argument, in the argument's own axis order, each level as long as the number of blocks along that letter
+    for call in calls:
+        for ai, (arg, ind) in enumerate(zip(call["args"], inds)):
+            want = () if conc is True else tuple(len(uni[l]) for l in ind if l in contracted)
+            got = _list_shape(arg)
+            ctx.count("list_structures_checked")
+            if got != want:
+                ctx.violation(L("structure", "list-structure"),
+                              "argument %d (%s) arrived as nested lists of lengths %s, expected %s (blocks per contracted letter %s)"
+                              % (ai, ind, got, want, {l: len(uni[l]) for l in contracted}))
+                return
     for idx, blk in zip(idxs, blks):
         decl = tuple(out_chunks[a][b] for a, b in enumerate(idx))
         if np.shape(blk) != decl:
@@ -839,6 +955,9 @@ def _run_blockwise(case, ctx):
             ctx.violation(L("value", "einsum-" + m[0]), m[1])
             return
     else:
+        def l_has_bcast_contracted(ind, ai):
+            return any(bcast(ai, a) and l in contracted for a, l in enumerate(ind))
+
         by_id = {c["id"]: c for c in calls}
         uoffs = {l: np.concatenate([[0], np.cumsum(c)]).astype(int).tolist() for l, c in uni.items()}
         seen = set()
@@ -853,9 +972,10 @@ def _run_blockwise(case, ctx):
             for ai, (arg, ind, x, d) in enumerate(zip(call["args"], inds, nps, das)):
                 # expected: per axis either the block of the output position, block 0 for a broadcast (length-1) axis,
                 # or all blocks for a contracted letter
-                def axis_blocks(a, l):
-                    if x.shape[a] == 1 and sum(uni[l]) != 1:
-                        return [(0, 1)]
+                def axis_blocks(a, l, ai=ai):
+                    if bcast(ai, a):
+                        # the one block; in a list of blocks it is repeated at every position of the contracted letter
+                        return [(0, x.shape[a])] * (len(uni[l]) if (l in contracted and conc is not True) else 1)
                     o = uoffs[l]
                     if l in contracted:
                         return [(o[b], o[b + 1]) for b in range(len(uni[l]))]
@@ -863,6 +983,8 @@ def _run_blockwise(case, ctx):
                 per_axis = [axis_blocks(a, l) for a, l in enumerate(ind)]
                 caxes = [a for a, l in enumerate(ind) if l in contracted]
                 ctx.count("received_blocks_checked")
+                if l_has_bcast_contracted(ind, ai):
+                    ctx.count("received_broadcast_along_contracted")
                 if conc is True or not caxes:
                     sl = tuple(slice(p[0][0], p[-1][1]) for p in per_axis)
                     ok = isinstance(arg, np.ndarray) and _same(arg, x[sl])
@@ -878,7 +1000,7 @@ def _run_blockwise(case, ctx):
                     ok = _nested_same(arg, expect)
                     why = "expected nested lists over the contracted axes %s" % (caxes,)
                 if not ok:
-                    kind = "contracted-blocks" if caxes else ("broadcast-block" if any(x.shape[a] == 1 and sum(uni[l]) != 1 for a, l in enumerate(ind)) else "aligned-block")
+                    kind = "contracted-blocks" if caxes else ("broadcast-block" if any(bcast(ai, a) for a in range(len(ind))) else "aligned-block")
                     ctx.violation(L("received", "received-" + kind),
                                   "output block %s: argument %d (%s) is %s; %s" % (idx, ai, ind, _describe(arg), why))
                     return
@@ -895,6 +1017,16 @@ def _run_blockwise(case, ctx):
             ctx.violation(L("geometry", m[0]), m[1])
             return
     ctx.sample = {"inds": inds, "out": out, "chunks_in": [str(d.chunks) for d in das], "out_chunks": str(out_chunks), "calls": len(calls)}
+
+
+def _list_shape(a):
+    """Lengths of the nested lists an argument arrived as (() for a bare block); None if ragged."""
+    if not isinstance(a, (list, tuple)):
+        return ()
+    subs = {_list_shape(x) for x in a}
+    if len(subs) > 1 or None in subs:
+        return None
+    return (len(a),) + (subs.pop() if subs else ())
 
 
 def _nested_blocks(flat, numblocks):
@@ -1111,4 +1243,7 @@ CALIBRATION = [
     "(length-1) operands are only generated together with align_arrays=True; a broadcast axis is only generated for letters that "
     "stay in the output (a contracted broadcast axis has no documented meaning).",
     "labels carry only the keywords that can influence the failing facet (RELEVANT) so that one mechanism gets one label.",
+    "follow-up: the first version never broadcast an operand along a CONTRACTED letter (judged undocumented); dask's own comment in "
+    "_get_coord_mapping defines it (the block is repeated dims[ind] times in a list, emitted once when concatenating), the statement's "
+    "'aligned by block index (broadcasting size-1 block dimensions)' covers it: now generated and checked (list-structure facet).",
 ]
